@@ -38,7 +38,7 @@ var opNames = []string{"GetStats", "GetAvailable", "DropPeer", "GetPeer", "GetPe
 	"Kill", "tor.Server", "tor.Client", "tor.Announce", "Reader.Read", "Reader.ReadBlocked", "Reader.Close", "tor.Expire",
 	"HTTP front page", "HTTP ?q=peers", "HTTP ?q=delete", "HTTP ?q=set-torrent", "HTTP file GET"}
 
-var stopNames = []string{"already-dead", "queued-behind-goaway", "ahead-of-goaway", "ctx-cancel", "queue-full", "queue-full-ctx-cancel", "burst", "after-timed-out-kill"}
+var stopNames = []string{"already-dead", "queued-behind-goaway", "ahead-of-goaway", "ctx-cancel", "queue-full", "queue-full-ctx-cancel", "burst", "after-timed-out-kill", "after-abandoned-read"}
 
 type world struct {
 	x       *sim.Tor
@@ -435,6 +435,36 @@ func oneCase(rt *rapid.T, opName, stop string) (fail string, labels []string) {
 		chatter()
 		start()
 		go func() { killed <- t.Kill(context.Background()) }()
+	case "after-abandoned-read":
+		// a client went away (its context ended) while its reader's request was
+		// queued behind a busy loop; the loop goes on, answers a request nobody
+		// waits for any more, and everything after that must still work
+		ch := hold()
+		rctx, rcancel := context.WithCancel(context.Background())
+		at := int64(0)
+		for i := 0; i < x.N; i++ {
+			// (a reader of a piece that is there does not have to ask the loop)
+			if !t.Pieces.Complete(uint32(i)) && i != hashing {
+				at = int64(i) * x.PieceSize
+				labels = append(labels, "abandoned-read-had-a-request-queued")
+				break
+			}
+		}
+		ard := t.NewReader(rctx, at, min(int64(1000), x.Length-at))
+		ares := make(chan error, 1)
+		go func() {
+			_, err := ard.Read(make([]byte, 100))
+			ares <- err
+			ard.Close()
+		}()
+		sim.Settle()
+		rcancel()
+		sim.Settle()
+		release(ch)
+		sim.Settle()
+		start()
+		sim.Settle()
+		go func() { killed <- t.Kill(context.Background()) }()
 	case "after-timed-out-kill":
 		// somebody gave up on a deletion that could not even be queued (the
 		// queue was full for longer than they were prepared to wait); the next
@@ -585,9 +615,13 @@ func runCell(t *testing.T, rt *rapid.T, opName, stop string) {
 	var labels []string
 	leak := sim.Bubble(t, func() { fail, labels = oneCase(rt, opName, stop) })
 	if fail != "" {
+		// (a torrent that could not be deleted stays behind and spoils the re-runs
+		// rapid makes to shrink the case: the first failure goes to the output too)
+		fmt.Printf("TestC17Cells: %s\n", fail)
 		rt.Fatalf("%s", fail)
 	}
 	if leak != "" {
+		fmt.Printf("TestC17Cells: operation %s, stop point %s: goroutines still blocked after deletion (%.300s)\n", opName, stop, leak)
 		rt.Fatalf("operation %s, stop point %s: goroutines started by the torrent are still blocked after deletion (%s)", opName, stop, leak)
 	}
 	nontrivial := stop != "already-dead"
